@@ -19,7 +19,7 @@ Dom(f) == CASE f = "command" -> {"scalar", "list"}
             [] f = "condition" -> {"absent", "true", "false"}
             [] f = "context" -> {"absent", "plain", "executable"}
             [] f = "dependson" -> {"absent", "scalar", "list"}
-            [] f = "import" -> {"none", "same", "cross"}
+            [] f = "import" -> {"none", "same", "cross", "mixed"}       \* mixed: an other-format file, then a same-format file
             [] f = "watcher" -> {"absent", "scalar", "list"}
             [] f = "stageenv" -> {"absent", "present"}
             [] f = "dir" -> {"absent", "present"}
